@@ -892,7 +892,7 @@ Section Workflow.
       intros Hi Hp. destruct (trace_entry_step i l idx rest Hi Hp) as (s & Hs & <- & Hin).
       apply run_step_trace_inv in Hin. destruct Hin as (base & Ho & Hm).
       exists s, base. rewrite W_outcomes, gate_open_o_iff, env_o_eq.
-      repeat split; auto.
+      split; [exact Hs|]. split; [reflexivity|]. split; [exact Ho|].
       destruct (s_foreach s) as [[it key]|].
       - destruct Hm as (items & k & item & i' & He & Hk & Hin & ->).
         exists items, k, item, i'. cbn in Hp. inversion Hp; subst. auto.
@@ -937,10 +937,10 @@ Section Workflow.
         end.
     Proof.
       intros Hi Hp. destruct (invocation_inv i l idx [] Hi Hp) as (s & base & Hs & Hl & Ho & Hm).
-      exists s, base. repeat split; auto.
+      exists s, base. split; [exact Hs|]. split; [exact Hl|]. split; [exact Ho|].
       destruct (s_foreach s) as [[it key]|].
       - destruct Hm as (items & k & item & i' & He & -> & Hk & Hin & ->).
-        exists items, item. repeat split; auto.
+        exists items, item. split; [exact He|]. split; [exact Hk|].
         cbn in Hp. injection Hp as Hp.
         exact (proj1 (direct_entry _ _ _ _ Hin Hp)).
       - destruct Hm as (-> & i' & Hin & ->). cbn in Hp. injection Hp as Hp.
@@ -1012,8 +1012,9 @@ Section Workflow.
       intros Hs Ho Hf r. destruct (step_result s Hs) as [Hout Ht].
       unfold r. rewrite W_outcomes in Ho |- *. rewrite env_o_eq. apply gate_open_o_iff in Ho.
       pose proof (plan_open_call s trigger F base Ho Hf) as Hp.
-      unfold run_step_g in Hout, Ht. rewrite Hp in Hout, Ht. cbn in Hout, Ht.
-      rewrite W_outcomes in Hout. auto.
+      rewrite W_outcomes in Hout.
+      unfold run_step_g in Hout, Ht. rewrite Hp in Hout, Ht. cbn [push_l r_out r_trace] in Hout, Ht.
+      auto.
     Qed.
 
     Lemma open_each s base it key items :
@@ -1036,11 +1037,13 @@ Section Workflow.
         { destruct Ho as (Her & Fd & Ei & Es). apply gate_open_iff in Fd.
           unfold step_plan, is_error_step, the_env in *. rewrite Fd, Ei, Hf, He.
           destruct (s_logic s); try discriminate; destruct Es as [-> | ->]; reflexivity. }
-        unfold run_step_g in Hout, Ht. rewrite Hp in Hout, Ht. cbn in Hout, Ht.
-        rewrite W_outcomes in Hout. auto.
+        rewrite W_outcomes in Hout.
+        unfold run_step_g in Hout, Ht. rewrite Hp in Hout, Ht. cbn [mk r_out r_trace] in Hout, Ht.
+        auto.
       - pose proof (plan_open_each s trigger F base it key x xs Ho Hf He) as Hp.
+        rewrite W_outcomes in Hout.
         unfold run_step_g in Hout, Ht. rewrite Hp in Hout, Ht.
-        rewrite W_outcomes in Hout. split.
+        split.
         + rewrite Hout. f_equal. unfold foreach_assemble. cbn [r_out].
           unfold mapi. rewrite mapi_from_map.
           assert (forall n l,
@@ -1052,5 +1055,171 @@ Section Workflow.
         + rewrite Ht, foreach_assemble_trace. unfold mapi. rewrite mapi_from_map, map_mapi_from.
           reflexivity.
     Qed.
+
+    (* ---------- the statements of P_C01.v ---------- *)
+
+    Theorem gate_expanded i l idx rest :
+      In i (w_trace W) -> i_path i = (l, idx) :: rest ->
+      exists s, In s ss /\ s_label s = l /\ is_error_step s = false /\
+        (forall d, In d (s_deps s) -> exists v, lookup d (w_outcomes W) = Some (SVal v)) /\
+        (eval_skip (s_skip s) (step_env_o s trigger (w_outcomes W)) = SkNone \/
+         eval_skip (s_skip s) (step_env_o s trigger (w_outcomes W)) = SkBool false).
+    Proof.
+      intros Hi Hp. destruct (gate_thm i l idx rest Hi Hp) as (s & base & Hs & Hl & He & Hd & _ & Hk).
+      exists s. repeat split; auto. intros d Hd'. rewrite Forall_forall in Hd. exact (Hd d Hd').
+    Qed.
+
+    (* a plain `ref` step whose gate is open: one evaluation, of that Function, on exactly [base] *)
+    Theorem fn_thm s base f :
+      In s ss -> gate_open_o s trigger (w_outcomes W) base -> s_foreach s = None -> s_logic s = LFn f ->
+      lookup (s_label s) (w_outcomes W) = Some (f_out (fn_sem f base)) /\
+      filter (head_is (s_label s)) (w_trace W) =
+        [ {| i_path := [(s_label s, None)]; i_tgt := TgFn f; i_inputs := base;
+             i_calls := f_calls (fn_sem f base) |} ].
+    Proof.
+      intros Hs Ho Hf Hl. destruct (open_call s base Hs Ho Hf) as [H1 H2].
+      rewrite Hl in H1, H2. auto.
+    Qed.
+
+    (* an Ok sub-workflow contributes its STATE; what it evaluates is its own run on [base] *)
+    Theorem sub_thm s base n r sub :
+      In s ss -> gate_open_o s trigger (w_outcomes W) base -> s_foreach s = None ->
+      s_logic s = LSub n r sub ->
+      let w := run_workflow fn_sem n r sub base in
+      lookup (s_label s) (w_outcomes W) =
+        Some (match w_result w with
+              | UList _ => SVal (JMap (w_state w))
+              | UNon o => of_outcome o
+              end) /\
+      filter (head_is (s_label s)) (w_trace W) =
+        map (push (s_label s, None))
+            ({| i_path := []; i_tgt := TgSub n; i_inputs := base; i_calls := [] |} :: w_trace w).
+    Proof.
+      intros Hs Ho Hf Hl w. destruct (open_call s base Hs Ho Hf) as [H1 H2].
+      rewrite Hl in H1, H2. auto.
+    Qed.
+
+    (* a refSwitch step evaluates exactly the selected case (or, with none selected, nothing) *)
+    Theorem switch_thm s base on cases d :
+      In s ss -> gate_open_o s trigger (w_outcomes W) base -> s_foreach s = None ->
+      s_logic s = LSwitch on cases d ->
+      match select_case on cases d base (step_env_o s trigger (w_outcomes W)) with
+      | None =>
+          lookup (s_label s) (w_outcomes W) = Some (SNon NPermFail) /\
+          filter (head_is (s_label s)) (w_trace W) = []
+      | Some lg =>
+          let r := rl lg base (step_env_o s trigger (w_outcomes W)) in
+          lookup (s_label s) (w_outcomes W) = Some (r_out r) /\
+          filter (head_is (s_label s)) (w_trace W) = map (push (s_label s, None)) (r_trace r)
+      end.
+    Proof.
+      intros Hs Ho Hf Hl. destruct (open_call s base Hs Ho Hf) as [H1 H2].
+      rewrite Hl, run_logic_switch in H1, H2.
+      destruct (select_case on cases d base (step_env_o s trigger (w_outcomes W))); auto.
+    Qed.
+
+    (* whatever the Logic: at most one evaluation is recorded directly under (label, index) *)
+    Lemma direct_at_most_one lg inputs en :
+      (List.length (filter (fun i => match i_path i with [] => true | _ => false end)
+                           (r_trace (rl lg inputs en))) <= 1)%nat.
+    Proof.
+      destruct (resolves_total inputs en lg) as [r Hr].
+      rewrite (resolves_run fn_sem inputs en lg r Hr). destruct r as [lg'|o]; [|cbn; lia].
+      destruct (leaf_trace fn_sem lg' inputs en (resolves_leaf _ _ _ _ Hr)) as (e & He & ->).
+      cbn [filter]. assert (filter (fun i => match i_path i with [] => true | _ => false end)
+                                   (nested_trace fn_sem lg' inputs) = []) as ->.
+      { apply filter_none. destruct lg'; cbn; try constructor.
+        eapply Forall_impl; [|apply wf_trace_nonempty]. intros i Hi. cbn in Hi.
+        destruct (i_path i); [congruence|reflexivity]. }
+      destruct (match i_path e with [] => true | _ => false end); cbn; lia.
+    Qed.
+
+    (* forEach: the evaluations are those of item 0, item 1, … in source order,
+       item k having received exactly item k under inputKey *)
+    Theorem foreach_thm s base it key items :
+      In s ss -> gate_open_o s trigger (w_outcomes W) base -> s_foreach s = Some (it, key) ->
+      eval it (step_env_o s trigger (w_outcomes W)) = Some (JList items) ->
+      filter (head_is (s_label s)) (w_trace W) =
+        List.concat (mapi (fun k item =>
+                             map (push (s_label s, Some k))
+                                 (r_trace (rl (s_logic s) (set_input key item base)
+                                              (step_env_o s trigger (w_outcomes W))))) items).
+    Proof. intros Hs Ho Hf He. exact (proj2 (open_each s base it key items Hs Ho Hf He)). Qed.
+
+    Theorem foreach_fn_thm s base it key items f :
+      In s ss -> gate_open_o s trigger (w_outcomes W) base -> s_foreach s = Some (it, key) ->
+      eval it (step_env_o s trigger (w_outcomes W)) = Some (JList items) -> s_logic s = LFn f ->
+      filter (head_is (s_label s)) (w_trace W) =
+        mapi (fun k item => {| i_path := [(s_label s, Some k)]; i_tgt := TgFn f;
+                               i_inputs := set_input key item base;
+                               i_calls := f_calls (fn_sem f (set_input key item base)) |}) items.
+    Proof.
+      intros Hs Ho Hf He Hl. rewrite (foreach_thm s base it key items Hs Ho Hf He), Hl.
+      clear He. unfold mapi. generalize 0%nat.
+      induction items as [|x xs IH]; intros n; cbn; [reflexivity|]. now rewrite IH.
+    Qed.
+
+    (* evaluations recorded deeper under a label are those of the sub-workflow's own run,
+       whose trigger is the inputs of the evaluation recorded at (label, index) *)
+    Theorem nested_thm i l idx seg rest :
+      In i (w_trace W) -> i_path i = (l, idx) :: seg :: rest ->
+      exists n r sub inputs,
+        In {| i_path := [(l, idx)]; i_tgt := TgSub n; i_inputs := inputs; i_calls := [] |} (w_trace W) /\
+        In {| i_path := seg :: rest; i_tgt := i_tgt i; i_inputs := i_inputs i; i_calls := i_calls i |}
+           (w_trace (run_workflow fn_sem n r sub inputs)).
+    Proof.
+      intros Hi Hp.
+      destruct (invocation_inv i l idx (seg :: rest) Hi Hp) as (s & base & Hs & Hl & Ho & Hm).
+      assert (forall inputs i',
+                In i' (r_trace (rl (s_logic s) inputs (step_env_o s trigger (w_outcomes W)))) ->
+                i_path i' = seg :: rest ->
+                exists n r sub,
+                  In {| i_path := []; i_tgt := TgSub n; i_inputs := inputs; i_calls := [] |}
+                     (r_trace (rl (s_logic s) inputs (step_env_o s trigger (w_outcomes W)))) /\
+                  In i' (w_trace (run_workflow fn_sem n r sub inputs))) as Hnest.
+      { intros inputs i' Hin Hp'.
+        destruct (resolves_total inputs (step_env_o s trigger (w_outcomes W)) (s_logic s)) as [rr Hr].
+        rewrite (resolves_run fn_sem _ _ _ _ Hr) in Hin |- *. destruct rr as [lg'|o]; [|destruct Hin].
+        destruct (leaf_trace fn_sem lg' inputs (step_env_o s trigger (w_outcomes W))
+                             (resolves_leaf _ _ _ _ Hr)) as (e & He & Ht).
+        rewrite Ht in Hin |- *. destruct Hin as [<-|Hin].
+        - destruct lg'; cbn in He; try discriminate; injection He as <-; cbn in Hp'; discriminate.
+        - destruct lg' as [f|n r sub|? ? ?|?]; cbn in Hin; try contradiction.
+          exists n, r, sub. cbn in He. injection He as <-. split; [now left|exact Hin]. }
+      assert (forall i', i = push (l, idx) i' -> i_path i' = seg :: rest /\
+                {| i_path := seg :: rest; i_tgt := i_tgt i; i_inputs := i_inputs i; i_calls := i_calls i |} = i')
+        as Hpop.
+      { intros i' ->. cbn in Hp. injection Hp as Hp. split; [exact Hp|].
+        destruct i'; cbn in *. now subst. }
+      subst l. destruct (s_foreach s) as [[it key]|] eqn:Hf.
+      - destruct Hm as (items & k & item & i' & He & -> & Hk & Hin & Hi').
+        destruct (Hpop i' Hi') as [Hp' Hrec]. rewrite Hrec.
+        destruct (Hnest _ i' Hin Hp') as (n & r & sub & Hown & Hsub).
+        exists n, r, sub, (set_input key item base). split; [|exact Hsub].
+        assert (In (push (s_label s, Some k)
+                         {| i_path := []; i_tgt := TgSub n; i_inputs := set_input key item base; i_calls := [] |})
+                   (filter (head_is (s_label s)) (w_trace W))) as Hfin.
+        { rewrite (foreach_thm s base it key items Hs Ho Hf He). apply in_concat.
+          eexists. split.
+          - apply mapi_in. exists k, item. split; [exact Hk|reflexivity].
+          - apply in_map. exact Hown. }
+        apply filter_In in Hfin. exact (proj1 Hfin).
+      - destruct Hm as (-> & i' & Hin & Hi').
+        destruct (Hpop i' Hi') as [Hp' Hrec]. rewrite Hrec.
+        destruct (Hnest _ i' Hin Hp') as (n & r & sub & Hown & Hsub).
+        exists n, r, sub, base. split; [|exact Hsub].
+        assert (In (push (s_label s, None)
+                         {| i_path := []; i_tgt := TgSub n; i_inputs := base; i_calls := [] |})
+                   (filter (head_is (s_label s)) (w_trace W))) as Hfin.
+        { rewrite (proj2 (open_call s base Hs Ho Hf)). apply in_map. exact Hown. }
+        apply filter_In in Hfin. exact (proj1 Hfin).
+    Qed.
   End Fixed.
+
+  (* steps not ready: nothing runs *)
+  Theorem not_ready_thm name o ss trigger :
+    let w := run_workflow fn_sem name (Some o) ss trigger in
+    w_trace w = [] /\ w_outcomes w = [] /\ w_result w = UNon (nonok_outcome o) /\
+    w_state w = [] /\ w_conds w = [("Ready", reason_of_nonok o)].
+  Proof. cbn. auto. Qed.
 End Workflow.
